@@ -103,3 +103,63 @@ class Restart(Harness):
         if res:
             return {"observed": {"after_step": res[0], "diff": str(res[1])[:600]}, "clause": "SELECT/STATUS/UID FETCH FLAGS/LIST/LSUB identical before and after an orderly restart"}
         return None
+
+
+CHILD = r'''
+import asyncio, os, sys
+sys.path.insert(0, os.environ["PYVC_REPO"])
+import logging; logging.disable(logging.CRITICAL)
+import aiosqlite
+from asimap.db import Database
+kill_at = int(sys.argv[2])
+count = [0]
+orig = aiosqlite.Connection.execute
+def patched(self, *a, **k):
+    count[0] += 1
+    if kill_at >= 0 and count[0] == kill_at:
+        os._exit(9)          # the process dies here: no cleanup code runs
+    return orig(self, *a, **k)
+aiosqlite.Connection.execute = patched
+async def main():
+    db = await Database.new(sys.argv[1])
+    await db.conn.close()
+try:
+    asyncio.run(main())
+except Exception as e:
+    print("FAILED", type(e).__name__, e)
+    os._exit(3)
+print("STATEMENTS", count[0])
+os._exit(0)
+'''
+
+
+class MigrationCrash(Harness):
+    """A kill before any SQL statement of first start-up / schema migration must not prevent the next start (C11 a)."""
+
+    scope = "first start-up of an empty mail directory: the process is killed (os._exit) immediately before the k-th SQL statement, for every k; then a normal start must succeed"
+    exhaustive = True
+
+    def inputs(self, tier, seed):
+        import subprocess, sys
+        d = scratch_dir()
+        try:
+            p = subprocess.run([sys.executable, "-c", CHILD, d, "-1"], capture_output=True, text=True, env=dict(os.environ))
+            m = re.search(r"STATEMENTS (\d+)", p.stdout)
+            n = int(m.group(1)) if m else 0
+        finally:
+            shutil.rmtree(d, ignore_errors=True)
+        for k in range(1, n + 1):
+            yield {"kill_before_statement": k}
+
+    def check(self, inp):
+        import subprocess, sys
+        d = scratch_dir()
+        try:
+            env = dict(os.environ)
+            subprocess.run([sys.executable, "-c", CHILD, d, str(inp["kill_before_statement"])], capture_output=True, text=True, env=env)
+            p = subprocess.run([sys.executable, "-c", CHILD, d, "-1"], capture_output=True, text=True, env=env)
+            if p.returncode != 0:
+                return {"observed": (p.stdout + p.stderr)[-300:], "clause": "starting again on the same directory succeeds"}
+            return None
+        finally:
+            shutil.rmtree(d, ignore_errors=True)
